@@ -23,6 +23,26 @@ def env_cfg(rng, adapter, T):
     return e
 
 
+def sanitize_parts(name, cfg, e):
+    """Batches of a single row are rejected loudly by the on-policy losses (chex shape assertion after squeeze); that is
+    the "loud rejection" C12 allows, so such datasets are never generated (also not by script surgery or minimisation)."""
+    if name in ("reinforce", "actor_critic"):
+        if cfg.get("train_after_episode"):
+            for ep in e["script"]:
+                ep["len"] = max(2, ep["len"])
+            e["tail_len"] = max(2, e["tail_len"])
+        else:
+            cfg["steps_per_update"] = max(2, cfg["steps_per_update"])
+    if name == "a2c" and cfg["steps_per_update"] * cfg["num_envs"] < 2:
+        cfg["steps_per_update"] = 2
+
+
+def sanitize(plan):
+    if "adapter" in plan and "cfg" in plan and "env" in plan:
+        sanitize_parts(plan["adapter"], plan["cfg"], plan["env"])
+    return plan
+
+
 def base_plan(rng, prop, clauses, adapter, T=None):
     ad = ADAPTERS[adapter]
     T = T or rng.choice([12, 20, 30, 45])
@@ -32,17 +52,7 @@ def base_plan(rng, prop, clauses, adapter, T=None):
         e["scripts"] = [make_script(rng, T) for _ in range(cfg["num_envs"])]
     if ad.name == "ppo":
         T = cfg["iterations"] * cfg["batch_size"] * cfg["num_envs"]
-    # batches of a single row are rejected loudly by the on-policy losses (chex shape assertion after squeeze);
-    # that is the "loud rejection" C12 allows, so such datasets are not generated
-    if ad.name in ("reinforce", "actor_critic"):
-        if cfg["train_after_episode"]:
-            for ep in e["script"]:
-                ep["len"] = max(2, ep["len"])
-            e["tail_len"] = max(2, e["tail_len"])
-        else:
-            cfg["steps_per_update"] = max(2, cfg["steps_per_update"])
-    if ad.name == "a2c" and cfg["steps_per_update"] * cfg["num_envs"] < 2:
-        cfg["steps_per_update"] = 2
+    sanitize_parts(ad.name, cfg, e)
     plan = {
         "check": prop, "clauses": clauses, "adapter": adapter, "seed": rng.randrange(2**31),
         "env": e, "cfg": cfg, "logger": rng.random() < 0.7, "supply_targets": rng.random() < 0.5,
@@ -80,4 +90,4 @@ def boundary_coincidences(rng, plan):
         out.append(ep)
         acc += ep["len"]
     plan["env"]["script"] = out
-    return plan
+    return sanitize(plan)
